@@ -279,7 +279,21 @@ template <class S> struct Ops {
     int kind = R->below(3);
     std::string what;
     std::function<void()> f;
+    // unknown handles of every sort order relative to the registered ones: fresh names, near-misses of live handles (case flip,
+    // proper prefix, one more character, normalised spelling)
     std::string uh = "no-such-handle-" + std::to_string(R->below(1000));
+    if (!m.h.empty() && R->below(3) != 0) {
+      auto hit_ = m.h.begin(); std::advance(hit_, R->below((int)m.h.size()));
+      std::string base = hit_->first;
+      switch (R->below(5)) {
+        case 0: uh = base.substr(0, base.size() - 1); break;
+        case 1: uh = base + "_"; break;
+        case 2: uh = base; uh[0] = (char)(islower(uh[0]) ? toupper(uh[0]) : tolower(uh[0])); break;
+        case 3: uh = "!" + base; break;
+        default: uh = "~" + base; break;
+      }
+      if (m.h.count(uh) || uh.empty()) uh = "no-such-handle";
+    }
     if (kind == 0) { what = "masa_select_mms<" + P + ">(\"" + uh + "\") [unknown handle]"; f = [uh] { masa_select_mms<S>(uh); }; }
     else if (kind == 1) { std::string h = rand_handle(); what = "masa_init<" + P + ">(\"" + h + "\",\"no_such_solution\") [unknown solution]"; f = [h] { masa_init<S>(h, "no_such_solution"); }; }
     else { std::string h = "fresh-" + std::to_string(R->below(1000)); what = "masa_init<" + P + ">(\"" + h + "\",\"euler_1d_\") [unknown solution, new handle]"; f = [h] { masa_init<S>(h, "euler_1d_"); }; }
